@@ -172,13 +172,17 @@ EXTRA7 = {
 }
 
 EXTRA8 = {
-    "C01": " ROW also runs remove() on a single-valued row and on a value that is not in the row.",
+    "C01": " ROW also runs remove() on a single-valued row and on a value that is not in the row. RANGEREC: SelectorIter::next follows the annotations of a ranged selector like a single AnnotationSelector.",
     "C02": " ROW: as C01.ROW. EVERY: a cascade loop that removes dependents calls the removal on every path back to its head.",
+    "C03": " IDFIRST: resolve_id looks the string up in the id map before reading it as a temporary id (dominance).",
+    "C05": " MOVED: set_filename marks stand-off resources and datasets changed when it moves the store.",
+    "C07": " REGEXFLAGS: no RegexSet is rebuilt from Regex::as_str. OVERLAP: the refill of buffered matches that begin inside the chosen match is a loop.",
+    "C15": " MOVED: as C05.MOVED.",
     "C04": " BOTH: the resolutions of offset.begin and offset.end each dominate every Ok answer of a function that resolves either.",
     "C09": " RESULTTYPE: every result type the query parsers can produce has a keyword in the printer's table.",
     "C10": " KEYDATA: remove_key removes every data item of the key (C02.EVERY on remove_key).",
     "C12": " SPLIT: split_text's constructor and SplitTextIter::next, interpreted together, hand the resource's byte->codepoint conversion the absolute bytes of each piece. UNIT follows Option::map into closures.",
-    "C13": " FLAG evaluates add() on members with and without handles.",
+    "C13": " FLAG evaluates add() on members with and without handles. SETLAW: converse / symmetry / implication laws and negation-as-complement (empty subject included) on the set-against-set test for sets of one or two members; four laws fail on the pinned tree and are known findings.",
     "C17": " SETLOCAL: no collection of the exporter is keyed by a set-local handle. TEMPLATE: a free-text replacement is the last substitution into a template.",
 }
 
